@@ -1,1 +1,10 @@
-// shared helpers
+//! C09 damage mode: pristine SSTs, logs and manifests produced by the real builders, an
+//! exhaustive enumeration of single damages (and pairs in the regions no checksum covers), and
+//! read programs whose observation on a damaged file must be an error or exactly the observation
+//! on the pristine file.
+
+pub mod alloc;
+pub mod damage;
+pub mod fixtures;
+pub mod observe;
+pub mod pb;
